@@ -354,6 +354,17 @@ def all_cases(ctx: Any) -> list[dict[str, Any]]:
                 continue  # quick tier: plain connections (no view to track) are sampled for the longest scripts
             cases.append({"kind": "script", "script": s, "mode": mode, "resumed": resumed, "draining": draining, "swallow": swallow,
                           "follow": follows[len(cases) % len(follows)] if mode == "view" else ["u"][: len(cases) % 2]})
+    if full:
+        # thorough: all scripts of length 5 through a view, and all two-request sequences of scripts of length <= 2
+        for p5 in itertools.product(LETTERS, repeat=5):
+            for resumed, draining, swallow in itertools.product((False, True), (False, True), (False, True)):
+                cases.append({"kind": "script", "script": "".join(p5), "mode": "view", "resumed": resumed, "draining": draining,
+                              "swallow": swallow, "follow": [follows[len(cases) % len(follows)][0]]})
+        short = [""] + ["".join(p) for n in (1, 2) for p in itertools.product(LETTERS, repeat=n)]
+        for s1, s2 in itertools.product(short, repeat=2):
+            for resumed, swallow in itertools.product((False, True), (False, True)):
+                cases.append({"kind": "script", "script": s1, "mode": "view", "resumed": resumed, "draining": False, "swallow": swallow,
+                              "follow": [s2, "u"]})
     # longer random scripts and longer view sequences
     for _ in range(ctx.budget(150, 4000)):
         n = rng.choice([5, 6, 7, 8, 12])
